@@ -148,6 +148,12 @@ class C15(Prop):
               'DK.C15.zero_width_hlq', 'DK.C15.zero_width_abc', 'DK.C15.idevice2_all_zero_width',
               'DK.C15.idevice_all_zero_width', 'DK.C15.idevice2_zero_width_slot']
   bridge = ['DK.Bridge.hlq_cost', 'DK.Bridge.hlq_deriv', 'DK.Bridge.abc_cost', 'DK.Bridge.abc_q']
+  bridge_vec = ['DK.BridgeVec.Device_cost', 'DK.BridgeVec.CDevice_cost', 'DK.BridgeVec.SDevice_flip_cost_at',
+                'DK.BridgeVec.SDevice_deep_damage_at', 'DK.BridgeVec.SDevice_charge_costs', 'DK.BridgeVec.SDevice_costv',
+                'DK.BridgeVec.SDevice_charge_at_lossless', 'DK.BridgeVec.IDevice2_costv', 'DK.BridgeVec.IDevice_costv',
+                'DK.BridgeVec.TDevice_costv_t', 'DK.BridgeVec.TDevice_costv',
+                'DK.BridgeVec.GDevice_cost']      # T1v: vector method bodies (vk/translate_vec.py, DK/Lemmas/BridgeVec.lean)
+  bridge = bridge + bridge_vec
   uses_t1 = True
   rule = ('leaf of every shipped class x n (1..8 quick, ..31 thorough) x bounds with zero-width slots x scalar/vector parameters x '
           'in-bounds flow (interior / mixed / per-slot on a bound) AND the flows exactly on the lower and on the upper bounds x '
